@@ -6,7 +6,7 @@
    fuel of the model always suffices, the parallel main loop never blocks for ever) is NOT proved:
    it is covered by the correspondence (all digraphs <= 3 tasks x all runners, sampled beyond) and by
    the oracle on implementation runs (exact hang detection by the deterministic scheduler). *)
-From DoitV Require Import Base Dispatch Runner DispatchP DispatchInv RunnerTr RunnerP CycleP AncP HoldP.
+From DoitV Require Import Base Dispatch Runner DispatchP DispatchInv RunnerTr RunnerP CycleP AncP HoldP TermP.
 Open Scope N_scope.
 
 (* a task lying on a dependency cycle through task_dep (explicit, wild-card, implicit file
@@ -65,7 +65,7 @@ Print Assumptions C09_exit_code_3_is_cycle_diagnostic.
    (Invariant of Proofs/AncP.v: ExecNode.ancestors is a chain of effective dependencies ending at the
    node; a node's dependency lists only contain effective dependencies of its task.)
    The other diagnostic ("hold on" with nothing running, EHoldError) is C09_hold_error_never_false_serial
-   below.  NOT PROVED: termination (that a run over an acyclic graph ends within a fuel bound). *)
+   below; termination is C09_serial_run_terminates at the end of this file. *)
 Theorem C09_cycle_error_never_false_serial :
   forall tasks wake_rank calc_rank continue_ always fuel selection p,
     In (ECycleError p) (fst (run_serial tasks wake_rank calc_rank continue_ always fuel selection)) ->
@@ -82,7 +82,7 @@ Print Assumptions C09_cycle_error_never_false_serial.
    every waiting node therefore has a successor among the waiting nodes, and a finite graph in which every
    vertex has a successor has a cycle -- pigeonhole.)  Together with the previous theorem: over an acyclic
    task graph a serial run never ends with exit code 3 -- it is either complete, stopped by a failure, or
-   out of fuel (termination itself is not proved). *)
+   out of fuel (which C09_serial_run_terminates excludes for an explicit fuel bound). *)
 Theorem C09_hold_error_never_false_serial :
   forall tasks wake_rank calc_rank continue_ always fuel selection,
     In EHoldError (fst (run_serial tasks wake_rank calc_rank continue_ always fuel selection)) ->
@@ -109,3 +109,74 @@ Definition ex09 (n : name) : option task :=
 Example C09_nonvacuous :
   run_serial ex09 (fun _ _ => 0) (fun _ => 0) false false 100 [0] = ([EClose; EHoldError], 3) /\ reach12 ex09 1 1.
 Proof. split; [vm_compute; reflexivity|]. apply (r_trans ex09 1 2 1); [simpl; auto|apply r_step; simpl; auto]. Qed.
+
+(* LIVENESS: a serial run over a FINITE task table terminates -- with enough fuel the model never answers
+   "out of fuel" -- whatever the graph (a cyclic one ends through one of the two diagnostics), the selection,
+   the flags and the set-order oracles, dependencies added at run time by calc_dep results included.
+   finite_table tasks univ: only names of univ have a task (other names are leaf tasks).  The bound
+   enough_fuel is an explicit computable polynomial in the sizes of the table (Proofs/TermP.v: potential =
+   per node 12|pending task_dep| + (12M+12)|pending calc_dep| + 4|wait run| + (12M+4)|wait calc| + credits
+   for what calc results can still add + a program-counter term, plus 4|ready| + 4|tasks_to_run| + 3[current];
+   every recursive call of the generator step, of the dispatcher loop and every runner iteration decreases it).
+   Hence: every cycle is diagnosed rather than looping, and over an acyclic finite table the run ends normally
+   or by an interrupting action. *)
+Theorem C09_serial_run_terminates :
+  forall tasks univ selection, finite_table tasks univ ->
+  exists N : nat, forall wake_rank calc_rank continue_ always fuel, (N <= fuel)%nat ->
+    snd (serial tasks wake_rank calc_rank continue_ always fuel (r_init selection) None) <> StopFuel.
+Proof. exact serial_terminates. Qed.
+Print Assumptions C09_serial_run_terminates.
+
+Theorem C09_serial_exit_code_never_out_of_fuel :
+  forall tasks univ selection, finite_table tasks univ ->
+  forall wake_rank calc_rank continue_ always fuel, (enough_fuel tasks univ selection <= fuel)%nat ->
+  snd (run_serial tasks wake_rank calc_rank continue_ always fuel selection) <> 99.
+Proof. exact run_serial_exit_code_not_99. Qed.
+Print Assumptions C09_serial_exit_code_never_out_of_fuel.
+
+Theorem C09_acyclic_serial_run_completes :
+  forall tasks univ selection, finite_table tasks univ -> (forall k, ~ reach tasks k k) ->
+  forall wake_rank calc_rank continue_ always fuel, (enough_fuel tasks univ selection <= fuel)%nat ->
+  let s := snd (serial tasks wake_rank calc_rank continue_ always fuel (r_init selection) None) in
+  s = StopNormal \/ exists k, s = StopInterrupt k.
+Proof. exact serial_acyclic_completes. Qed.
+Print Assumptions C09_acyclic_serial_run_completes.
+
+(* non-vacuity: a table whose dependencies grow at run time (0 has calc_dep 1; 1 returns task_dep [2;2],
+   an implicit dep 3 and a further calc_dep 4; 4 returns task_dep [0]: a cycle through a calc result) is a
+   finite table, the bound is a concrete number, and with that fuel the run ends through the cycle diagnostic *)
+Definition ex09t (n : name) : option task :=
+  match n with
+  | 0 => Some (Build_task [] [] [1] false false CkRun false OOk [] [] [])
+  | 1 => Some (Build_task [] [] [] false false CkRun false OOk [2; 2] [3] [4])
+  | 2 => Some (Build_task [] [5] [] true false CkRun false OOk [] [] [])
+  | 3 => Some (Build_task [] [] [] false false CkUpToDate false OOk [] [] [])
+  | 4 => Some (Build_task [] [] [] false false CkRun false OOk [0] [] [])
+  | _ => None end.
+(* the same table without the edge back (4 returns nothing): acyclic, the run completes with exit code 0 *)
+Definition ex09u (n : name) : option task :=
+  match n with
+  | 4 => Some (Build_task [] [] [] false false CkRun false OOk [] [] [])
+  | _ => ex09t n end.
+Lemma ex09t_finite : finite_table ex09t [0; 1; 2; 3; 4].
+Proof.
+  intros k Hk. destruct k as [|p]; [exfalso; apply Hk; simpl; auto|].
+  repeat (destruct p as [p|p|]; try reflexivity; try (exfalso; apply Hk; simpl; tauto)).
+Qed.
+Example C09_terminates_nonvacuous :
+  finite_table ex09t [0; 1; 2; 3; 4] /\ finite_table ex09 [0; 1; 2] /\
+  enough_fuel ex09t [0; 1; 2; 3; 4] [0] = 2225%nat /\
+  snd (run_serial ex09t (fun _ _ => 0) (fun _ => 0) false false (enough_fuel ex09t [0; 1; 2; 3; 4] [0]) [0]) = 3 /\
+  snd (run_serial ex09 (fun _ _ => 0) (fun _ => 0) false false (enough_fuel ex09 [0; 1; 2] [0]) [0]) = 3 /\
+  finite_table ex09u [0; 1; 2; 3; 4] /\
+  (let res := run_serial ex09u (fun _ _ => 0) (fun _ => 0) false false (enough_fuel ex09u [0; 1; 2; 3; 4] [0]) [0] in
+   snd res = 0 /\ execs (fst res) = [1; 4; 5; 2; 0]).
+Proof.
+  split; [exact ex09t_finite|]. split.
+  { intros k Hk. destruct k as [|p]; [exfalso; apply Hk; simpl; auto|].
+    repeat (destruct p as [p|p|]; try reflexivity; try (exfalso; apply Hk; simpl; tauto)). }
+  split; [vm_compute; reflexivity|]. split; [vm_compute; reflexivity|]. split; [vm_compute; reflexivity|]. split.
+  { intros k Hk. destruct k as [|p]; [exfalso; apply Hk; simpl; auto|].
+    repeat (destruct p as [p|p|]; try reflexivity; try (exfalso; apply Hk; simpl; tauto)). }
+  split; vm_compute; reflexivity.
+Qed.
